@@ -255,6 +255,35 @@ def fast_path(seed, q, res):
     ec, terms, dev, links = build(ecm, eth, spec, fast=True)
     name = f"layout seed {seed} (fast path)"
     try:
+        if seed % 3 == 0:
+            # the same device first served in another group, behind a
+            # terminal that shifts every region of the frame: nothing of
+            # that group's layout may survive into the group checked below
+            SM = eth.SyncManager
+            tp = ecm.EBPFTerminal(ec)
+            tp.position, tp.name, tp.use_fmmu = 999, "tpre", False
+            tp.pdo_in_sz, tp.pdo_in_off = 6, 0x1100
+            tp.pdo_out_sz, tp.pdo_out_off = 4, 0x1000
+            tp.fmmu_used = [None, None, None]
+            tp.pdos = {}
+
+            class Pre(ecm.Device):
+                a = ecm.TerminalVar()
+                b = ecm.TerminalVar()
+                update = lambda self: None
+
+                def program(self):
+                    self.b = self.a
+            pre = Pre()
+            pre.a = ecm.PacketDesc(SM.IN, 2, "H").__get__(tp, type(tp))
+            pre.b = ecm.PacketDesc(SM.OUT, 0, "H").__get__(tp, type(tp))
+            sg0 = ecm.FastSyncGroup(ec, [pre, dev])
+            sg0.allocate()
+            sg0.assemble()
+            dsl.new_registry()        # only the maps of the group below
+            for t in terms:
+                t.fmmu_used = [None, None, None]
+            res["regrouped"] = res.get("regrouped", 0) + 1
         sg = ecm.FastSyncGroup(ec, [dev])
         sg.allocate()
         code = sg.assemble()
